@@ -2081,6 +2081,10 @@ static mut ENC_SKIP_TOPIC: [bool; 4] = [false; 4];
 static mut VALIDATE_CALLS: usize = 0;
 static mut VALIDATE_FAIL: bool = false;
 static mut VALIDATE_SAW_ID: u16 = 0;
+static mut VALIDATE_RES_SOME: bool = false;
+static mut VALIDATE_RES_SKIP: bool = false;
+static mut VALIDATE_RES_ALIAS: u16 = 0;
+static mut ENC_ALIAS: [u16; 4] = [0; 4];
 
 fn packet_kind(p: &MqttPacket) -> (u8, u16) {
     match p {
@@ -2092,7 +2096,7 @@ fn packet_kind(p: &MqttPacket) -> (u8, u16) {
 
 fn stub_encoder_reset(_this: &mut crate::encode::Encoder, packet: &MqttPacket, context: &crate::encode::EncodingContext) -> GneissResult<()> {
     let (k, pid) = packet_kind(packet);
-    unsafe { if ENC_RESETS < 4 { ENC_KIND[ENC_RESETS] = k; ENC_PID[ENC_RESETS] = pid; ENC_SKIP_TOPIC[ENC_RESETS] = context.outbound_alias_resolution.skip_topic; } ENC_RESETS += 1; }
+    unsafe { if ENC_RESETS < 4 { ENC_KIND[ENC_RESETS] = k; ENC_PID[ENC_RESETS] = pid; ENC_SKIP_TOPIC[ENC_RESETS] = context.outbound_alias_resolution.skip_topic; ENC_ALIAS[ENC_RESETS] = context.outbound_alias_resolution.alias.unwrap_or(0); } ENC_RESETS += 1; }
     Ok(())
 }
 
@@ -2102,8 +2106,9 @@ fn stub_encoder_encode(_this: &mut crate::encode::Encoder, _packet: &MqttPacket,
     Ok(crate::encode::EncodeResult::Complete)
 }
 
-fn stub_validate_internal(packet: &MqttPacket, _context: &crate::validate::OutboundValidationContext) -> GneissResult<()> {
+fn stub_validate_internal(packet: &MqttPacket, context: &crate::validate::OutboundValidationContext) -> GneissResult<()> {
     unsafe { VALIDATE_CALLS += 1; VALIDATE_SAW_ID = packet_kind(packet).1; }
+    unsafe { match &context.outbound_alias_resolution { Some(r) => { VALIDATE_RES_SOME = true; VALIDATE_RES_SKIP = r.skip_topic; VALIDATE_RES_ALIAS = r.alias.unwrap_or(0); } None => { VALIDATE_RES_SOME = false; } } }
     if unsafe { VALIDATE_FAIL } { return Err(GneissError::new_packet_validation(crate::mqtt::PacketType::Publish, "gv: stub validation failure")); }
     Ok(())
 }
@@ -2113,7 +2118,7 @@ fn stub_validate_internal(packet: &MqttPacket, _context: &crate::validate::Outbo
 /// queue followed by a PINGREQ, 4 = publish that fails last-chance validation, 5 = aliased publish that fails last-chance validation (manual resolver)
 fn send_loop_body(shape: u8) {
     done_reset();
-    unsafe { ENC_RESETS = 0; VALIDATE_CALLS = 0; VALIDATE_FAIL = shape == 4 || shape == 5; }
+    unsafe { ENC_RESETS = 0; VALIDATE_CALLS = 0; VALIDATE_FAIL = shape == 4 || shape == 5; VALIDATE_RES_SOME = false; VALIDATE_RES_SKIP = false; VALIDATE_RES_ALIAS = 0; }
     let mut st = mk_state(ProtocolStateType::Connected);
     st.current_settings = Some(NegotiatedSettings { receive_maximum_from_server: 10, ..Default::default() });
     let pid: u16 = kani::any();
@@ -2140,6 +2145,18 @@ fn send_loop_body(shape: u8) {
             st.outbound_alias_resolver = std::cell::RefCell::new(resolver);
             let mut o = mk_publish_op(1, None, QualityOfService::AtMostOnce, false);
             if let MqttPacket::Publish(p) = &mut *o.packet { p.topic = "t".to_string(); p.topic_alias = Some(1); }
+            st.operations.insert(1, o);
+            st.user_operation_queue.push_back(1);
+        }
+        6 | 7 => {
+            // manual alias resolver, server allows 5 aliases; the publish asks for (symbolic) alias a on topic "t" and PASSES validation.
+            // shape 6: alias not bound yet (topic + alias property go out); shape 7: already bound on this connection (empty topic goes out)
+            let mut resolver = crate::alias::OutboundAliasResolverFactory::new_manual_factory()();
+            resolver.reset_for_new_connection(5);
+            if shape == 7 { let pre = resolver.resolve_and_apply_topic_alias(&Some(pid % 4 + 1), "t"); assert!(!pre.skip_topic); }
+            st.outbound_alias_resolver = std::cell::RefCell::new(resolver);
+            let mut o = mk_publish_op(1, None, QualityOfService::AtMostOnce, false);
+            if let MqttPacket::Publish(p) = &mut *o.packet { p.topic = "t".to_string(); p.topic_alias = Some(pid % 4 + 1); }
             st.operations.insert(1, o);
             st.user_operation_queue.push_back(1);
         }
@@ -2171,6 +2188,14 @@ fn send_loop_body(shape: u8) {
             // once a DISCONNECT has been written nothing further is sent on that connection
             assert!(resets == 1 && unsafe { ENC_KIND[0] } == 14, "gv: nothing is sent after a DISCONNECT has been written");
             assert!(st.state == ProtocolStateType::PendingDisconnect && st.high_priority_operation_queue.len() == 1 && to_socket.len() == 1);
+        }
+        6 | 7 => {
+            // the limits (maximum packet size) must be checked against the form that is transmitted: validation sees the very alias
+            // resolution the encoder is given (alias property present; topic omitted iff the alias is already bound on this connection)
+            assert!(resets == 1 && unsafe { ENC_KIND[0] } == 3 && unsafe { VALIDATE_CALLS } == 1);
+            assert!(unsafe { ENC_ALIAS[0] } == pid % 4 + 1 && unsafe { ENC_SKIP_TOPIC[0] } == (shape == 7), "gv: the alias resolution handed to the encoder is the resolver's");
+            assert!(unsafe { VALIDATE_RES_SOME } && unsafe { VALIDATE_RES_ALIAS } == unsafe { ENC_ALIAS[0] } && unsafe { VALIDATE_RES_SKIP } == unsafe { ENC_SKIP_TOPIC[0] },
+                "gv: send-time validation must check the packet in the form (alias, topic omitted or not) in which it is encoded");
         }
         5 => {
             assert!(resets == 0 && done_n() == 1 && done(0).1 == E_VALIDATION);
